@@ -10,7 +10,7 @@ import time
 
 from . import build as B
 from . import supervisor as S
-from .common import Budget, base_seed, match_known, write_evidence, write_replay
+from .common import Budget, base_seed, load_known, match_known, write_evidence, write_replay
 
 UNIVERSES = [("00", "ff"), ("a5", "5a"), ("ff", "00")]
 
@@ -32,6 +32,21 @@ def argv_one(exe, mode, base, index, cat, extra=""):
     if extra:
         a.append(extra)
     return a
+
+
+def known_c07_query_defect(d):
+    """A death inside a query whose top /repo frame is one of the unrepaired pure-input defects listed for C07:
+    whether it strikes in the reference or only in the varied pass depends on heap layout, so it is never attributed
+    to a differential property (deterministic rule; the per-sweep contrast set of §11.2 comes on top)."""
+    for e in load_known():
+        if e.get("property") != "C07" or e.get("status") != "known":
+            continue
+        rx = e.get("match", {}).get("class")
+        if rx and rx.startswith("asan:") and re.fullmatch(rx, d.get("class", "")):
+            kinds = e.get("match", {}).get("dict_kind")
+            if kinds is None or re.fullmatch(kinds, d.get("dict_kind", "")):
+                return e.get("class")
+    return None
 
 
 def death_desc(rec):
@@ -114,6 +129,8 @@ def run_history_check(prop, tier, mode, runs, cat, budget_s, design_ref, assumpt
                 rep = sf.get("report") or ""
                 if rep.startswith("HANG"):
                     d = {"class": "hang", "kind": "hang", "first_repo_function": "?"}
+                elif rep.startswith("UNSTABLE"):
+                    d = {"class": "unstable_answer", "kind": "unstable", "first_repo_function": None}
                 else:
                     d = death_desc({"stderr": rep, "exit": 77})
                 w = (sf.get("what") or "? ?").split(" ")
@@ -147,6 +164,8 @@ def run_history_check(prop, tier, mode, runs, cat, budget_s, design_ref, assumpt
                 key = "%s|%s|%s" % (d["class"], d["dict_kind"], d["step"] if not c07 else "")
                 if c07:
                     candidates.setdefault(key, []).append((u, rec, d))
+                elif d["phase"] == "var" and known_c07_query_defect(d) and not d["step"].startswith(("save", "second-save", "load-of", "own-load", "generic-load", "destroy", "sequential", "corrupted", "misdirected")):
+                    agg["precondition_failed"]["ambiguous: %s [%s] %s (unrepaired pure-input defect listed for C07: %s)" % (d["class"], d["dict_kind"], d["step"], known_c07_query_defect(d))] += 1
                 elif d["phase"] == "var" and (d.get("first_repo_function"), d["dict_kind"], rec.get("refstate") or "built") in sym_functions and not d["step"].startswith(("save", "second-save", "load-of", "own-load", "generic-load", "destroy", "sequential", "corrupted", "misdirected")):
                     agg["precondition_failed"]["ambiguous: %s [%s] %s (function also fails in isolated reference calls)" % (d["class"], d["dict_kind"], d["step"])] += 1
                 elif d["phase"] == "var":
@@ -336,7 +355,7 @@ def gate(hr, prop, mode, u, rec, d, seed):
         # symmetric failure (C07): the same class must show up again among the isolated reference calls
         for r in recs:
             for sf in r.get("sym") or []:
-                dd = death_desc({"stderr": sf.get("report") or "", "exit": 77}) if not (sf.get("report") or "").startswith("HANG") else {"class": "hang"}
+                dd = death_desc({"stderr": sf.get("report") or "", "exit": 77}) if not (sf.get("report") or "").startswith(("HANG", "UNSTABLE")) else {"class": "hang" if (sf.get("report") or "").startswith("HANG") else "unstable_answer"}
                 if dd["class"] == d["class"]:
                     replay["failing_call"] = sf.get("what")
                     replay["stderr_excerpt"] = S.symbolize_report(sf.get("report") or "")[:2500]
